@@ -435,22 +435,27 @@ def initTucker (i : InitSpec) (shape : List Nat) (rank order : List Int) : Bool 
   | .nvecs => true
   | _ => false
 
+/-- the length test of a rank vector, then `np.any(rank < lo) or np.any(rank > shape)` -/
+def ranksWithin (shape : List Nat) (ranks : List Int) (lo : Int) : Bool :=
+  ranks.length == shape.length &&
+    (List.range shape.length).all fun k => decide (lo ≤ ranks.getD k 0) && decide (ranks.getD k 0 ≤ (shape.getD k 0 : Int))
+
 def validate_tucker (a : TuckerArgs) : Except Reject Unit :=
   let N := a.shape.length
   if !a.maxitersNonneg then .error .reject
-  else if !(a.rank.length == 1 || a.rank.length == N) then .error .reject
+  else if !ranksWithin a.shape (expandRank N a.rank) 1 then .error .reject
   else if !optPerm N a.dimorder then .error .reject
   else if !initTucker a.init a.shape a.rank (a.dimorder.getD ((List.range N).map Int.ofNat)) then .error .reject
   else rejectIf (N == 0)
 
-def optLen (N : Nat) (o : Option Nat) : Bool :=
+def optRanks (shape : List Nat) (o : Option (List Int)) : Bool :=
   match o with
   | none => true
-  | some k => k == N
+  | some r => ranksWithin shape r 0
 
-def validate_hosvd (N : Nat) (ranks : Option Nat) (dimorder : Option (List Int)) : Except Reject Unit :=
-  if !optLen N ranks then .error .reject
-  else rejectIf (!optPerm N dimorder)
+def validate_hosvd (shape : List Nat) (ranks : Option (List Int)) (dimorder : Option (List Int)) : Except Reject Unit :=
+  if !optRanks shape ranks then .error .reject
+  else rejectIf (!optPerm shape.length dimorder)
 
 def maskFits (shape : List Nat) (o : Option (List Nat)) : Bool :=
   match o with
@@ -498,6 +503,142 @@ def validate_import : ImportArgs → Except Reject Unit
     else rejectIf s.isEmpty
   | .unknown => .error .reject
   | .missing => .error .reject
+
+/-! ### the remaining public operations -/
+
+/-- `tensor.mttkrps(U)`: list length, factor sizes; `khatrirao()` of nothing for fewer than two modes -/
+def validate_mttkrps (shape : List Nat) (U : List MatS) : Except Reject Unit :=
+  if U.length != shape.length then .error .reject
+  else if !((List.range shape.length).all fun i => U.getD i (0, 0) == (shape.getD i 0, (U.getD 0 (0, 0)).2)) then .error .reject
+  else rejectIf (shape.length < 2)
+
+/-- an optional argument is a mode -/
+def optMode (N : Nat) (o : Option Int) : Bool :=
+  match o with
+  | none => true
+  | some s => decide (0 ≤ s) && decide (s < (N : Int))
+
+/-- the direct computation of `ttsv` -/
+def validate_ttsvDirect (a : TtsvArgs) : Except Reject Unit :=
+  if a.shape.isEmpty then .error .reject            -- `self.shape[0]`
+  else if a.shape.any (fun e => e != a.shape.getD 0 0) then .error .reject
+  else rejectIf (decide ((a.skip.getD (-1)) + 1 < (a.shape.length : Int)) && a.veclen != a.shape.getD 0 0)
+
+/-- `tensor.ttsv(vector, skip_dim, version)` -/
+def validate_ttsv (a : TtsvArgs) : Except Reject Unit :=
+  if !optMode a.shape.length a.skip then .error .reject
+  else
+    match a.version with
+    | .v1 => validate_ttv a.asTtv
+    | .v2 => validate_ttsvDirect a
+    | .default => validate_ttsvDirect a
+    | .other => .error .reject
+
+/-- every group lists distinct modes of the tensor -/
+def groupsValid (N : Nat) (G : List (List Int)) : Bool := G.all fun g => allInRange N g && !hasDupI g
+
+def sameExt (shape : List Nat) (g : List Int) : Bool :=
+  g.all fun m => shape.getD m.toNat 0 == shape.getD (g.getD 0 0).toNat 0
+
+/-- `np.intersect1d(g, h).size != 0` -/
+def overlaps (g h : List Int) : Bool := g.any fun x => h.contains x
+
+/-- the default `symmetrize`: per group, the extents, then the overlap with the later groups -/
+def symNewGo (shape : List Nat) : List (List Int) → Except Reject Unit
+  | [] => .ok ()
+  | g :: rest =>
+    if !sameExt shape g then .error .reject
+    else if rest.any (overlaps g) then .error .reject
+    else symNewGo shape rest
+
+/-- the double loop over pairs of groups of the original `symmetrize` -/
+def overlapAny : List (List Int) → Bool
+  | [] => false
+  | g :: rest => rest.any (overlaps g) || overlapAny rest
+
+/-- `tensor.symmetrize(grps, version)` -/
+def validate_symmetrize (shape : List Nat) (grps : Option (List (List Int))) (old : Bool) : Except Reject Unit :=
+  let G := symGroups shape.length grps
+  if !groupsValid shape.length G then .error .reject
+  else if old then
+    if !(G.all (sameExt shape)) then .error .reject else rejectIf (overlapAny G)
+  else symNewGo shape G
+
+/-- `tensor.issymmetric(grps, ...)` -/
+def validate_issymmetric (shape : List Nat) (grps : Option (List (List Int))) : Except Reject Unit :=
+  rejectIf (!groupsValid shape.length (symGroups shape.length grps))
+
+/-- `ktensor.symmetrize()` -/
+def validate_ksymmetrize (shape : List Nat) : Except Reject Unit :=
+  if shape.isEmpty then .error .reject   -- `self.shape[0]`
+  else rejectIf (!(shape.all fun e => e == shape.getD 0 0))
+
+/-- `ktensor.fixsigns(other)`, `ktensor.score(other)` -/
+def validate_kmatch (sa sb : List Nat) (ra rb : Nat) : Except Reject Unit :=
+  if sa != sb then .error .reject else rejectIf (ra < rb)
+
+/-- `ktensor.update(modes, data)`: everything is checked before the first write -/
+def validate_update (a : UpdateArgs) : Except Reject Unit :=
+  if !((List.range (a.modes.length - 1)).all fun i => decide (a.modes.getD i 0 < a.modes.getD (i + 1) 0)) then .error .reject
+  else if a.modes.any (fun k => decide (k < -1) || decide ((a.shape.length : Int) ≤ k)) then .error .reject
+  else rejectIf (a.datalen < a.needed)
+
+def SampleS.fitsB (s : SampleS) (extent : Nat) : Bool :=
+  match s with
+  | .idx m => decide (m < extent)
+  | .mat _ c => c == extent
+
+/-- `ttensor.reconstruct(samples, modes)` -/
+def validate_reconstruct (shape : List Nat) (samples : Option (List SampleS)) (modes : Option (List Int)) :
+    Except Reject Unit :=
+  match samples with
+  | none => rejectIf modes.isSome
+  | some ss =>
+    let ms := modes.getD ((List.range shape.length).map Int.ofNat)
+    if !(allInRange shape.length ms && !hasDupI ms) then .error .reject
+    else if ss.length > 0 && ss.length != ms.length then .error .reject
+    else rejectIf (!((ss.zip ms).all fun p => p.1.fitsB (shape.getD p.2.toNat 0)))
+
+/-- `ktensor.from_function(f, shape, R)` -/
+def validate_kfromFunction (shape : List Nat) (R : Nat) (returned : List MatS) : Except Reject Unit :=
+  rejectIf (returned != shape.map (fun e => (e, R)))
+
+/-- `sptenmat[rows, cols] = values`: both tests precede the first write -/
+def validate_sptenmatSet (a : SpSetArgs) : Except Reject Unit :=
+  if a.rsubs.any (fun r => decide (r < 0) || decide ((a.mshape.1 : Int) ≤ r)) ||
+     a.csubs.any (fun c => decide (c < 0) || decide ((a.mshape.2 : Int) ≤ c)) then .error .reject
+  else match a.nvals with
+    | none => .ok ()
+    | some n => rejectIf (n != a.rsubs.length * a.csubs.length)
+
+/-- `tenmat[i, j]`: NumPy's own bounds test -/
+def validate_tenmatIndex (mshape : MatS) (i j : Int) : Except Reject Unit :=
+  rejectIf (!(decide (-(mshape.1 : Int) ≤ i) && decide (i < mshape.1) && decide (-(mshape.2 : Int) ≤ j) && decide (j < mshape.2)))
+
+/-- `nvecs(n, r)` of every holder -/
+def validate_nvecs (shape : List Nat) (n r : Int) : Except Reject Unit :=
+  rejectIf (!(decide (0 ≤ n) && decide (n < (shape.length : Int)) && decide (0 < r) && decide (r ≤ (shape.getD n.toNat 0 : Int))))
+
+def validate_tenfunUnary (shape : List Nat) (others : List (List Nat)) : Except Reject Unit :=
+  rejectIf (others.any fun s => s != shape)
+
+def validate_viz (N : Nat) (lens : List Nat) : Except Reject Unit := rejectIf (lens.any fun l => l != N)
+
+def validate_spmatrix (shape : List Nat) : Except Reject Unit := rejectIf (shape.length != 2)
+
+/-- `sptensor.from_function`: the range of the request, then the constructor's value count -/
+def validate_spFromFunction (shape : List Nat) (nonzeros : Int) (returnsRequested : Bool) : Except Reject Unit :=
+  if decide (nonzeros < 0) || decide ((numel shape : Int) < nonzeros) then .error .reject
+  else rejectIf (!returnsRequested)
+
+/-- `sptenmat.from_array` of an array without zero entries: the `sptenmat` constructor on its subscripts -/
+def validate_fromArray (ashape : MatS) (rdims cdims : Option (List Int)) (tshape : List Nat) : Except Reject Unit :=
+  match wrapDimsI tshape.length rdims cdims none with
+  | none => .error .reject
+  | some rc =>
+    if !isPermOfI (rc.1 ++ rc.2) tshape.length then .error .reject
+    else rejectIf (decide (0 < ashape.1) && decide (0 < ashape.2) &&
+      (decide (sideSize tshape rc.1 < ashape.1) || decide (sideSize tshape rc.2 < ashape.2)))
 
 /-! ### explicit copies of three guards as they were at the pinned commit (for the record) -/
 
